@@ -967,6 +967,9 @@ func (m *MutableOverlayWorld) MergeInto(other MutableWorld) error {
 
 func (m *MutableOverlayWorld) Snapshot() b6.World {
 	copy := *m
+	// The index built so far now belongs to the snapshot: make it resolve
+	// features through the snapshot, rather than through the live world.
+	copy.index.features = &copy
 	m.base = &copy
 	m.features = NewFeaturesByID()
 	m.references = NewFeatureReferences()
